@@ -192,3 +192,77 @@ def extra_checks(work, tier):
     out['samples'] = [{'unit': 'SHA1_transform_schedule_pattern', 'checks': [c[0] for c in checks]}]
     out['wall_s'] = time.time() - t0
     return [out]
+
+# ---------------------------------------------------------------------------------------------
+# decoders on arbitrary text.  ByteArray is modelled by (vf_res, capacity, length) with the contracts of C01:
+#   ByteArray result(m): capacity max(m,3), length m;  resize(m) needs m >= 0 (and here never grows);  data() = vf_res
+DOFFM = '#define DOFF(a, b) ((long)__CPROVER_POINTER_OFFSET(a) - (long)__CPROVER_POINTER_OFFSET(b))\n'
+DEFS_H = 'include/asl/defs.h'
+decodeBase64 = Unit(
+    'decodeBase64', 'C15',
+    cuts=[Cut('isspace', DEFS_H, r'^inline bool myisspace\(char c\)\s*$'), Cut('isalnum', DEFS_H, r'^inline bool myisalnum\(char c\)\s*$'),
+          Cut('inv', U, r'^static const byte base64_chars_inv\[\] =', kind='stmt'),
+          Cut('dec', U, r'^ByteArray decodeBase64\(const char\* src0, int n\)\s*$', nth=1, count=2,
+              rules=[(r'ByteArray result\(len2\);', 'VF_ARRAY_CTOR(len2);', 1), (r'result\.clear\(\);', 'vf_reslen = 0;', 1), (r'return result;', 'return;', None),
+                     (r'result\.data\(\)', 'vf_res', None), (r'result\.resize\(([^;]*)\);', r'VF_ARRAY_RESIZE(\1);', 1),
+                     (r'(const byte\* src = \(const byte\*\)src0;)', r'\1 const byte* vf_s0 = src;', 1)],
+              loops=[(r'while\s*\(p > src', 0, '''
+  __CPROVER_assigns(p, e)
+  __CPROVER_loop_invariant(__CPROVER_same_object(p, vf_s0) && 0 <= DOFF(p, vf_s0) && DOFF(p, vf_s0) <= len - 1 && 0 <= e && e <= len - 1 - DOFF(p, vf_s0))
+  __CPROVER_decreases(DOFF(p, vf_s0))
+''', [('p', 'vf_s0 + (p - vf_s0)')]),
+                     (r'while\s*\(\*src\)', 0, '''
+  __CPROVER_assigns(src, dest, i, __CPROVER_object_whole(k), __CPROVER_object_whole(vf_res))
+  __CPROVER_loop_invariant(__CPROVER_same_object(src, vf_s0) && 0 <= DOFF(src, vf_s0) && DOFF(src, vf_s0) <= len && 0 <= i && i < 4)
+  __CPROVER_loop_invariant(__CPROVER_same_object(dest, vf_res) && 0 <= DOFF(dest, vf_res) && DOFF(dest, vf_res) % 3 == 0 && 4 * (DOFF(dest, vf_res) / 3) + i <= DOFF(src, vf_s0))
+  __CPROVER_decreases(len - DOFF(src, vf_s0))
+''', [('src', 'vf_s0 + (src - vf_s0)'), ('dest', 'vf_res + (dest - vf_res)')])])],
+    text=r'''
+#include "vf_base.h"
+''' + DOFFM + r'''
+static bool myisspace(char c) @@isspace@@
+static bool myisalnum(char c) @@isalnum@@
+@@inv@@
+byte* vf_res; int vf_rescap, vf_reslen, g_len;
+#define VF_ARRAY_CTOR(m) { vf_rescap = (m) > 3 ? (m) : 3; vf_res = malloc(vf_rescap); __CPROVER_assume(vf_res != 0); vf_reslen = (m); }
+#define VF_ARRAY_RESIZE(m) { __CPROVER_assert((m) >= 0, "Array::resize: new length is non-negative"); __CPROVER_assert((m) <= vf_rescap, "resize within capacity"); vf_reslen = (m); }
+void decodeBase64(const char* src0, int n)
+__CPROVER_requires(0 <= g_len && g_len <= NMAX && __CPROVER_is_fresh(src0, g_len + 1) && src0[g_len] == 0 && (n == g_len || n == -1))
+/* for ANY text (junk, odd lengths, padding-only): terminates, stays inside the text and the result's capacity, and the result length is >= 0 */
+__CPROVER_ensures(0 <= vf_reslen && vf_reslen <= g_len / 4 * 3)
+__CPROVER_assigns(vf_res, vf_rescap, vf_reslen)
+@@dec@@
+void vf_harness(void) { const char* s; int n; decodeBase64(s, n); VF_CANARY(); }
+''',
+    entry='decodeBase64', variants={'': ['-DNMAX=100000']}, timeout=600,
+    desc='decodeBase64 on ANY NUL-terminated text: table index in range, every write below capacity, trailing-padding scan stays in the text, terminates, result length non-negative',
+    functions=['decodeBase64'], trusted=['strlen (libc) returns the offset of the NUL; ByteArray modelled by the C01 contracts of ctor/clear/data/resize'],
+)
+
+b64_group = Unit(
+    'decodeBase64_group', 'C15',
+    cuts=[Cut('inv', U, r'^static const byte base64_chars_inv\[\] =', kind='stmt'),
+          Cut('blk', U, r'\t\tif \(i == 4\)\s*\{((?:.|\n)*?)\n\t\t\}\n\t\}\n\tresult\.resize', kind='expr')],
+    text=r'''
+#include "vf_base.h"
+#include "b64.h"
+@@inv@@
+byte nondet_u8(void); int nondet_int(void);
+void vf_harness(void) {
+  byte a = nondet_u8(), b = nondet_u8(), c = nondet_u8(); int npad = nondet_int(); __CPROVER_assume(0 <= npad && npad <= 2);
+  byte d[3] = { a, b, c }; int n = 3 - npad;                       /* a final group may carry 1 or 2 bytes (RFC 4648 padding) */
+  byte k[4]; byte out[3]; byte* dest = out; int i = 4;
+  for (int j = 0; j < 4; j++) k[j] = base64_chars_inv[(byte)SPEC_B64(d, n, j)];   /* what the loop stores for the 4 characters of the group */
+  {@@blk@@
+  }
+  __CPROVER_assert(out[0] == a && (n < 2 || out[1] == b) && (n < 3 || out[2] == c), "decoding the RFC 4648 encoding of a group returns its bytes (the padded ones are cut off by the caller)");
+  __CPROVER_assert(dest == out + 3 && i == 0, "a group produces 3 bytes");
+  VF_CANARY();
+}
+''',
+    entry=None, unwind=6, floor=5, expect=['assertion'],
+    desc='one Base64 group, all 2^24 byte triples and both padding forms: the decoder\'s table lookup and bit assembly invert RFC 4648 encoding',
+    functions=['decodeBase64 (group decoding)', 'base64_chars_inv'],
+    planted=[('blk', r'\(k\[1\] << 12\)', '(k[1] << 11)')],
+)
+UNITS += [decodeBase64, b64_group]
